@@ -484,11 +484,55 @@ def NsProof.ofRaw (start end_ : Nat) (nodes : List Bytes) (leafHash : Bytes) (ig
       | none => none
       | some lf => some ⟨start % 4294967296, end_ % 4294967296, sibs, ign, true, some lf⟩
 
-/-- `NamespaceProof::total_leaves`: `Some(1 << siblings.len())` for single-leaf proofs; the shift
-    PANICS in debug builds when there are 64 or more siblings -/
+/-- `NamespaceProof::total_leaves` (lumina): `Some(1 << siblings.len())` for single-leaf proofs with fewer than
+    64 siblings (checked shift, since /repo commit 07cb5f3), `None` otherwise.  (Before that commit the shift
+    panicked in debug builds for 64 or more siblings.)  The `Except` wrapper is kept for compatibility; it never fails. -/
 def NsProof.totalLeaves (p : NsProof) : Except Err (Option Nat) :=
   if p.end_ - p.start = 1 then
-    if p.siblings.length ≥ 64 then .error .panic else .ok (some (2 ^ p.siblings.length))
+    if p.siblings.length ≥ 64 then .ok none else .ok (some (2 ^ p.siblings.length))
   else .ok none
+
+/-- `siblings.windows(2).any(|pair| pair[0].max_namespace() > pair[1].min_namespace())` -/
+def adjacentBad : List NsHash → Bool
+  | a :: b :: rest => ltB b.minNs a.maxNs || adjacentBad (b :: rest)
+  | _ => false
+
+/-- lumina `NamespaceProof::validate_shape(first_namespace, last_namespace)` (types/src/nmt/namespace_proof.rs,
+    since /repo commit 07cb5f3): shape checks done BEFORE the proof is handed to nmt-rs; every failure is
+    `RangeProofError::MalformedProof` -/
+def validateShape (p : NsProof) (first last : Bytes) : Except Err Unit :=
+  let numLeft := computeNumLeftSiblings p.start
+  if numLeft > p.siblings.length then .error .malformedProof
+  else if p.siblings.any (fun n => ltB n.maxNs n.minNs) then .error .malformedProof
+  else if adjacentBad p.siblings then .error .malformedProof
+  else if (if numLeft ≠ 0 then
+             match p.siblings[numLeft - 1]? with
+             | some l => ltB first l.maxNs
+             | none => false
+           else false) then .error .malformedProof
+  else if (match p.siblings[numLeft]? with
+           | some r => ltB r.minNs last
+           | none => false) then .error .malformedProof
+  else .ok ()
+
+/-- lumina's inherent `NamespaceProof::verify_range` (shadows the nmt-rs method) -/
+def luminaVerifyRange (H : HashFn) (p : NsProof) (root : NsHash) (rawLeaves : List Bytes) (ns : Bytes) :
+    Except Err Unit :=
+  match validateShape p ns ns with
+  | .error e => .error e
+  | .ok () => verifyRange H p root rawLeaves ns
+
+/-- lumina's inherent `NamespaceProof::verify_complete_namespace` -/
+def luminaVerifyCompleteNamespace (H : HashFn) (p : NsProof) (root : NsHash) (rawLeaves : List Bytes) (ns : Bytes) :
+    Except Err Unit :=
+  let shape : Except Err Unit :=
+    match (if p.isAbsence then p.leaf else none) with
+    | some leaf =>
+      if ltB leaf.maxNs leaf.minNs then .error .malformedProof
+      else validateShape p leaf.minNs leaf.maxNs
+    | none => validateShape p ns ns
+  match shape with
+  | .error e => .error e
+  | .ok () => verifyCompleteNamespace H p root rawLeaves ns
 
 end Lumina.Model.Nmt
